@@ -10,19 +10,14 @@ open H3.Gen.Bits
 
 @[inline] def setReservedInt (h : BitVec 64) (v : Int) : BitVec 64 := m_set_reserved h (BitVec.ofInt 32 v)
 
-/-- `gridDisk(origin, 1, ring)` into a zeroed 7-slot ring, return code ignored (as both callers do) -/
-def ring1 (origin : BitVec 64) : Array (BitVec 64) :=
-  match gridDiskDistances origin 1 with
-  | .ok (out, _) => out
-  | .error _ => Array.replicate 7 0#64
-
 def neighborSetClockwise : List Nat := [0, 3, 6, 2, 5, 1, 4]
 def neighborSetCounterclockwise : List Nat := [0, 5, 3, 1, 6, 4, 2]
 
-/-- `areNeighborCells` -/
-def areNeighborCells (origin destination : BitVec 64) : R Bool := do
+/-- the sibling shortcut of `areNeighborCells`: `some answer` when it decides, `none` to fall
+through to the gridDisk search -/
+def neighborShortcut (origin destination : BitVec 64) : R (Option Bool) := do
   if getMode origin != 1 || getMode destination != 1 then throw .cellInvalid
-  if origin == destination then return false
+  if origin == destination then return some false
   if getRes origin != getRes destination then throw .resMismatch
   let parentRes : Int := (getRes origin : Int) - 1
   if parentRes > 0 then
@@ -31,13 +26,27 @@ def areNeighborCells (origin destination : BitVec 64) : R Bool := do
     if op == dp then
       let od := getDigit origin (parentRes.toNat + 1)
       let dd := getDigit destination (parentRes.toNat + 1)
-      if od == 0 || dd == 0 then return true
+      if od == 0 || dd == 0 then return some true
       if od >= 7 then throw .cellInvalid
       if (od == 1 || dd == 1) && isPentagon op then throw .cellInvalid
       if neighborSetClockwise.getD od 0 == dd || neighborSetCounterclockwise.getD od 0 == dd then
-        return true
-  let ring := ring1 origin
-  return ring.any (· == destination)
+        return some true
+  return none
+
+/-- `areNeighborCells` with its allocations (the inner `gridDisk(origin, 1, ring)`; its error is
+propagated — uber/h3 after the `fix:` commit recorded in known_findings.txt) -/
+def areNeighborCellsA (sched : Nat → Bool) (origin destination : BitVec 64) (a : AState) : R Bool × AState :=
+  match neighborShortcut origin destination with
+  | .error e => (.error e, a)
+  | .ok (some b) => (.ok b, a)
+  | .ok none =>
+    match gridDiskDistancesA sched origin 1 false a with
+    | (.error e, a) => (.error e, a)
+    | (.ok (ring, _), a) => (.ok (ring.any (· == destination)), a)
+
+/-- `areNeighborCells` -/
+def areNeighborCells (origin destination : BitVec 64) : R Bool :=
+  (areNeighborCellsA noFail origin destination {}).1
 
 /-- `cellsToDirectedEdge` -/
 def cellsToDirectedEdge (origin destination : BitVec 64) : R (BitVec 64) :=
